@@ -167,10 +167,13 @@ def compare_interps(i1, i2, timeout_ms=20000, check_oob=False, extra_assumptions
         verdict = "unknown"
     oob = None
     if verdict == "unsat" and check_oob and i2.inbounds:
+        # the original is assumed conforming (its in-bounds conditions are hypotheses); the
+        # transformed program must then stay in bounds too
         s.push()
         s.add(z3.Not(z3.And(*i2.inbounds)))
         if str(s.check()) == "sat":
-            oob = s.model()
+            oob = _nice_model(s, i1) or s.model()
+            verdict, model, which = "sat", oob, "out-of-bounds access in the transformed program"
         s.pop()
     return Result(verdict, model=model, diff=which, solver_s=time.time() - t0, reach=reach,
                   nontrivial=nontrivial, i1=i1, i2=i2, oob=oob, zero_trip_only=zto)
